@@ -3217,6 +3217,14 @@ func (p *Posix) DeleteObject(ctx context.Context, input *s3.DeleteObjectInput) (
 					return nil, fmt.Errorf("set versionId: %w", err)
 				}
 			} else {
+				// Suspended: the delete marker becomes the null version, an
+				// older null version in the versioning directory is
+				// replaced by it (as in PutObject) - two entries with
+				// version id null were listed before
+				err = p.deleteNullVersionIdObject(bucket, object)
+				if err != nil {
+					return nil, fmt.Errorf("delete null version: %w", err)
+				}
 				err = p.meta.DeleteAttribute(bucket, object, versionIdKey)
 				if err != nil && !errors.Is(err, meta.ErrNoSuchKey) {
 					return nil, fmt.Errorf("delete versionId: %w", err)
